@@ -496,6 +496,46 @@ format_region(struct ev_spec *spec, struct cursor *c, struct emu_ev *ev)
 	return 0;
 }
 
+/** Checks that the payload of the event, which comes from the trace, holds
+ * all the arguments declared in the event specification: every fixed size
+ * argument must fit and every string must be terminated inside the payload.
+ *
+ * Returns 0 if the payload can be safely decoded, -1 otherwise. */
+int
+ev_spec_check_payload(struct ev_spec *spec, struct emu_ev *ev)
+{
+	if (spec->nargs == 0)
+		return 0;
+
+	const uint8_t *payload = (const uint8_t *) ev->payload;
+	size_t payload_size = ev->payload_size;
+
+	if (payload == NULL) {
+		err("event %s has no payload", spec->mcv);
+		return -1;
+	}
+
+	for (int i = 0; i < spec->nargs; i++) {
+		struct ev_arg *arg = &spec->args[i];
+
+		if (arg->type == STR) {
+			if (arg->offset >= payload_size
+					|| memchr(&payload[arg->offset], '\0',
+						payload_size - arg->offset) == NULL) {
+				err("string argument %s of %s not terminated in payload",
+						arg->name, spec->mcv);
+				return -1;
+			}
+		} else if (arg->offset + arg->size > payload_size) {
+			err("payload of %s too short for argument %s",
+					spec->mcv, arg->name);
+			return -1;
+		}
+	}
+
+	return 0;
+}
+
 int
 ev_spec_print(struct ev_spec *spec, struct emu_ev *ev, char *outbuf, int outlen)
 {
